@@ -215,12 +215,35 @@ func marshalDocSections(secs []DocumentSection) []byte {
 	return toSizedDeltas(ints)
 }
 
+// uvarintLen is binary.Uvarint for decoding stored sections: a truncated or
+// overlong varint (n <= 0), which only a corrupt shard contains, ends the
+// input instead of making no progress (n == 0 would loop forever while
+// appending) or slicing with a negative index.
+func uvarintLen(data []byte) (uint64, int) {
+	v, n := binary.Uvarint(data)
+	if n <= 0 {
+		return 0, len(data)
+	}
+	return v, n
+}
+
+// boundedCount limits a stored element count, which is only used to presize
+// the result, by the number of elements the remaining input can hold (every
+// element takes at least one byte), so that a corrupt count cannot trigger a
+// huge allocation.
+func boundedCount(sz uint64, data []byte) int {
+	if sz > uint64(len(data)) {
+		return len(data)
+	}
+	return int(sz)
+}
+
 func unmarshalDocSections(data []byte, ds []DocumentSection) []DocumentSection {
-	sz, m := binary.Uvarint(data)
+	sz, m := uvarintLen(data)
 	data = data[m:]
 
-	if cap(ds) < int(sz)/2 {
-		ds = make([]DocumentSection, 0, sz/2)
+	if n := boundedCount(sz, data) / 2; cap(ds) < n {
+		ds = make([]DocumentSection, 0, n)
 	} else {
 		ds = ds[:0]
 	}
@@ -231,12 +254,12 @@ func unmarshalDocSections(data []byte, ds []DocumentSection) []DocumentSection {
 	for len(data) > 0 {
 		var d DocumentSection
 
-		delta, m := binary.Uvarint(data)
+		delta, m := uvarintLen(data)
 		last += uint32(delta)
 		data = data[m:]
 		d.Start = last
 
-		delta, m = binary.Uvarint(data)
+		delta, m = uvarintLen(data)
 		last += uint32(delta)
 		data = data[m:]
 		d.End = last
@@ -278,18 +301,18 @@ func toSizedDeltas(offsets []uint32) []byte {
 }
 
 func fromSizedDeltas(data []byte, ps []uint32) []uint32 {
-	sz, m := binary.Uvarint(data)
+	sz, m := uvarintLen(data)
 	data = data[m:]
 
-	if cap(ps) < int(sz) {
-		ps = make([]uint32, 0, sz)
+	if n := boundedCount(sz, data); cap(ps) < n {
+		ps = make([]uint32, 0, n)
 	} else {
 		ps = ps[:0]
 	}
 
 	var last uint32
 	for len(data) > 0 {
-		delta, m := binary.Uvarint(data)
+		delta, m := uvarintLen(data)
 		offset := last + uint32(delta)
 		last = offset
 		data = data[m:]
@@ -318,18 +341,18 @@ func toSizedDeltas16(offsets []uint16) []byte {
 }
 
 func fromSizedDeltas16(data []byte, ps []uint16) []uint16 {
-	sz, m := binary.Uvarint(data)
+	sz, m := uvarintLen(data)
 	data = data[m:]
 
-	if cap(ps) < int(sz) {
-		ps = make([]uint16, 0, sz)
+	if n := boundedCount(sz, data); cap(ps) < n {
+		ps = make([]uint16, 0, n)
 	} else {
 		ps = ps[:0]
 	}
 
 	var last uint16
 	for len(data) > 0 {
-		delta, m := binary.Uvarint(data)
+		delta, m := uvarintLen(data)
 		offset := last + uint16(delta)
 		last = offset
 		data = data[m:]
@@ -346,7 +369,7 @@ func fromDeltas(data []byte, buf []uint32) []uint32 {
 
 	var last uint32
 	for len(data) > 0 {
-		delta, m := binary.Uvarint(data)
+		delta, m := uvarintLen(data)
 		offset := last + uint32(delta)
 		last = offset
 		data = data[m:]
